@@ -1,6 +1,7 @@
 //! C04 laboratory: generated applications (host sub-apps, routes, websocket routes), a reference
 //! router (host scan -> route scan -> default scan -> 404) and the client side. The match predicate
-//! is supplied by the harness (the repository's own `wildcard_match`; C05 judges the matcher itself).
+//! is supplied by the harness: `glob_ref`, an O(nm) dynamic-programming matcher written from the
+//! property's definition of `*` (the same oracle C05 uses), so a wrong matcher shows up here too.
 
 use crate::httplab::Conn;
 use crate::json::J;
@@ -25,6 +26,23 @@ pub struct AppModel {
 }
 
 pub type Matcher = fn(&str, &str) -> bool;
+
+/// Reference glob: `*` = any (possibly empty) sequence of characters, everything else itself.
+pub fn glob_ref(pattern: &str, text: &str) -> bool {
+    let p: Vec<char> = pattern.chars().collect();
+    let t: Vec<char> = text.chars().collect();
+    let (n, m) = (p.len(), t.len());
+    let mut next = vec![false; m + 1];
+    let mut cur = vec![false; m + 1];
+    next[m] = true;
+    for i in (0..n).rev() {
+        for j in (0..=m).rev() {
+            cur[j] = if p[i] == '*' { next[j] || (j < m && cur[j + 1]) } else { j < m && p[i] == t[j] && next[j + 1] };
+        }
+        std::mem::swap(&mut cur, &mut next);
+    }
+    next[0]
+}
 
 #[derive(Clone, Debug, PartialEq)]
 pub enum Choice {
@@ -90,12 +108,22 @@ pub fn gen_app(rng: &mut Rng) -> AppModel {
 
 fn instantiate(rng: &mut Rng, pattern: &str) -> String {
     let mut s = String::new();
-    for c in pattern.chars() {
+    let chars: Vec<char> = pattern.chars().collect();
+    for (i, &c) in chars.iter().enumerate() {
         if c == '*' {
             for _ in 0..rng.urange(0, 3) {
                 s.push_str(LITS[rng.usize(LITS.len())]);
                 if rng.chance(1, 3) {
                     s.push('/');
+                }
+            }
+            // self-overlap: a proper prefix (or a repeat minus its last character) of the literal that
+            // follows the star, so that the literal "almost matches" before its real occurrence
+            let lit: Vec<char> = chars[i + 1..].iter().cloned().take_while(|c| *c != '*').collect();
+            if !lit.is_empty() && rng.chance(1, 3) {
+                for _ in 0..rng.urange(1, 2) {
+                    let k = rng.urange(1, lit.len().max(2) - 1).min(lit.len());
+                    s.extend(lit[..k].iter());
                 }
             }
         } else {
@@ -131,7 +159,7 @@ pub fn gen_host(rng: &mut Rng, m: &AppModel) -> Option<String> {
         2 if !m.hosts.is_empty() => {
             // instantiate a registered host pattern, sometimes with a port
             let p = m.hosts[rng.usize(m.hosts.len())].host.clone().unwrap();
-            let fill: &str = *rng.pick(&["www", "a", "x.y", ""]);
+            let fill: &str = *rng.pick(&["www", "a", "x.y", "", "a.example", "b.co", "x.c.co"]);
             let mut h = p.replace('*', fill);
             if rng.chance(1, 3) {
                 h.push_str(":8080");
